@@ -60,10 +60,12 @@ class Scripted:
         return (self._val(key), b"%d" % (100 + self.idx)) if key in self.present else (default, cas_default)
 
     def get_many(self, keys):
+        keys = list(keys)           # like Client: any iterable, walked once
         self._rec("get_many", keys=keys)
         return {k: self._val(k) for k in keys if k in self.present}
 
     def gets_many(self, keys):
+        keys = list(keys)
         self._rec("gets_many", keys=keys)
         return {k: (self._val(k), b"%d" % (100 + self.idx)) for k in keys if k in self.present}
 
@@ -249,6 +251,68 @@ def check_read_long(case):
         if r != exp:
             raise Violation(["read-result", op, "long"], "%s returned %d entries (%r...), expected cache %d's answer of %d entries" % (desc, len(r), sorted(r.items())[:2], answering, len(exp)))
     return n > 1000, ["read-long", op, "n>1024" if n > 1024 else "n<=1024"]
+
+
+# ---- kinds of keys and shapes of key collections ---------------------------------
+
+KEY_KINDS = {
+    "ascii": ["alpha", "beta", "gamma"],
+    "unicode": ["\u043a\u043b\u044e\u0447-1", "cl\u00e9-2", "\u9375-3"],          # legal where unicode keys are enabled
+    "bytes-high": [b"\xff\xfe-1", b"caf\xc3\xa9-2", b"\x80-3"],
+    "mixed": ["alpha", b"beta", "cl\u00e9-3"],
+}
+
+
+def key_shape_cases(tier, seed):
+    for kind in KEY_KINDS:
+        for shape in ("list", "tuple", "iter", "generator", "map", "dictview"):
+            for op in ("get_many", "gets_many"):
+                for present in ([[], "all"], [[1], "all"], [[], [], [0, 2]], ["all"], [[], []], [[], [2], "all"]):
+                    yield {"op": op, "kind": kind, "shape": shape, "present": present}
+        for op in ("get", "gets"):
+            for present in ([[], "all"], [[0], "all"], [[], [], [0]], [[], []]):
+                yield {"op": op, "kind": kind, "shape": "single", "present": present}
+
+
+def check_key_shapes(case):
+    from vlib.ops import _keys_as
+    op = case["op"]
+    keys = list(KEY_KINDS[case["kind"]])
+    log = []
+    caches = [Scripted(i, set(keys) if pr == "all" else {keys[j] for j in pr}, log) for i, pr in enumerate(case["present"])]
+    fc = FallbackClient(caches)
+    desc = "%s with %s keys %r given as %s; caches hold %r" % (op, case["kind"], keys, case["shape"], case["present"])
+    single = op in ("get", "gets")
+    try:
+        r = getattr(fc, op)(keys[0]) if single else getattr(fc, op)(_keys_as(list(keys), case["shape"]))
+    except Exception as e:  # noqa: BLE001
+        raise Violation(["read-raises", op, "key-kinds"], "%s raised %r" % (desc, e))
+    if single:
+        answering = next((i for i, c in enumerate(caches) if keys[0] in c.present), None)
+    else:
+        answering = next((i for i, c in enumerate(caches) if c.present), None)
+    consulted = [i for i, _n, _b in log]
+    want = list(range(len(caches) if answering is None else answering + 1))
+    if consulted != want:
+        raise Violation(["read-consulted", op, "key-kinds"], "%s consulted caches %r, expected %r" % (desc, consulted, want))
+    for i, name, b in log:
+        asked = [b["key"]] if single else list(b["keys"])
+        if name != op or asked != (keys[:1] if single else keys):
+            raise Violation(["read-args", op, "key-kinds"], "%s: cache %d was asked %s for %r, not for the caller's keys" % (desc, i, name, asked))
+    if answering is None:
+        if not _is_miss(op, r):
+            raise Violation(["read-allmiss", op, "key-kinds"], "%s returned %r, not a miss" % (desc, r))
+    else:
+        c = caches[answering]
+        if op == "get":
+            exp = c._val(keys[0])
+        elif op == "gets":
+            exp = (c._val(keys[0]), b"%d" % (100 + answering))
+        else:
+            exp = {k: (c._val(k) if op == "get_many" else (c._val(k), b"%d" % (100 + answering))) for k in keys if k in c.present}
+        if r != exp:
+            raise Violation(["read-result", op, "key-kinds"], "%s returned %r, expected cache %d's answer %r" % (desc, r, answering, exp))
+    return answering not in (0,) and len(caches) > 1, ["key-kinds", case["kind"], case["shape"], op]
 
 
 # ---- writes ----------------------------------------------------------------
@@ -510,6 +574,7 @@ def check_write_real(case):
 PARTS = [
     Part("reads-scripted", "enum", check_read, cases=read_cases, shards={"quick": 2, "thorough": 2}, exhaustive=True),
     Part("writes-scripted", "enum", check_write, cases=write_cases, shards={"quick": 2, "thorough": 2}, exhaustive=True),
+    Part("reads-key-kinds-and-shapes", "enum", check_key_shapes, cases=key_shape_cases, shards={"quick": 2, "thorough": 2}, exhaustive=True),
     Part("reads-long-key-lists", "enum", check_read_long, cases=long_read_cases, shards={"quick": 4, "thorough": 8}, exhaustive=True),
     Part("reconfigured-cache-list", "enum", check_reconfig, cases=reconfig_cases, shards={"quick": 1, "thorough": 1}, exhaustive=True),
     Part("returned-containers", "enum", check_fresh_container, cases=fresh_container_cases, shards={"quick": 1, "thorough": 1}, exhaustive=True),
